@@ -6,7 +6,6 @@ import (
 	"os"
 	"path/filepath"
 	"sort"
-	"strconv"
 	"strings"
 	"sync"
 	"testing"
@@ -16,20 +15,7 @@ import (
 	"verifharness/lib"
 )
 
-func TestMain(m *testing.M) { spreadSeed(); lib.Main(m) }
-
-// spreadSeed mixes the per-shard seed (splitmix64, bijective): the driver hands consecutive seeds to the
-// shards while rapid runs iteration i with seed base+i(i+1)/2, so unmixed shards replay each other's cases.
-func spreadSeed() {
-	z := lib.Seed() + 0x9e3779b97f4a7c15
-	z = (z ^ (z >> 30)) * 0xbf58476d1ce4e5b9
-	z = (z ^ (z >> 27)) * 0x94d049bb133111eb
-	z ^= z >> 31
-	if z == 0 {
-		z = 1
-	}
-	os.Setenv("VERIF_PROC_SEED", strconv.FormatUint(z, 10))
-}
+func TestMain(m *testing.M) { lib.Main(m) }
 
 var spec = lib.Spec{
 	ID: "C10",
@@ -136,7 +122,11 @@ func gen(t *rapid.T) Case {
 			tg.HasPassEnv = true // pass_env = []
 		default:
 			tg.HasPassEnv = true
-			tg.PassEnv = subset(t, listable, 3, "pass_env")
+			tg.PassEnv = subset(t, listable, 2, "pass_env")
+			first := rapid.SampledFrom(listable).Draw(t, "pass_env_first")
+			if !contains(tg.PassEnv, first) {
+				tg.PassEnv = append([]string{first}, tg.PassEnv...)
+			}
 		}
 		ne := rapid.IntRange(0, 2).Draw(t, "nenv")
 		seen := map[string]bool{}
@@ -182,15 +172,66 @@ func gen(t *rapid.T) Case {
 		}
 	}
 	c.Envs = append(c.Envs, envList(cur))
+	var hashed []string
+	for _, tg := range c.Targets {
+		hashed = append(hashed, tg.PassEnv...)
+	}
+	hashed = append(hashed, c.CfgPassEnv...)
+	var prefixed []string // unlisted names sharing a prefix with a listed one
+	for _, n := range callerNames {
+		if contains(hot, n) {
+			continue
+		}
+		for _, h := range hot {
+			if sharesPrefix(n, h) {
+				prefixed = append(prefixed, n)
+				break
+			}
+		}
+	}
+	// change sets n to a value that differs from the current one (also in os.Getenv terms)
+	change := func(next map[string]string, n string) {
+		alts := plainValues
+		if a, ok := special[n]; ok {
+			alts = a
+		}
+		start := rapid.IntRange(0, len(alts)-1).Draw(t, "valstart")
+		for k := 0; k < len(alts); k++ {
+			v := alts[(start+k)%len(alts)]
+			if v != next[n] {
+				next[n] = v
+				return
+			}
+		}
+	}
 	steps := rapid.IntRange(2, 3).Draw(t, "nsteps")
 	for s := 0; s < steps; s++ {
 		next := map[string]string{}
 		for k, v := range cur {
 			next[k] = v
 		}
-		nch := rapid.IntRange(1, 3).Draw(t, "nchanges")
+		kind := rapid.SampledFrom([]string{"hashed", "hashed", "prefixed", "unsafe", "noise", "noise"}).Draw(t, "stepkind")
+		switch {
+		case kind == "hashed" && len(hashed) > 0:
+			change(next, rapid.SampledFrom(hashed).Draw(t, "hashedname"))
+		case kind == "prefixed" && len(prefixed) > 0:
+			change(next, rapid.SampledFrom(prefixed).Draw(t, "prefixedname"))
+		case kind == "unsafe" && len(c.CfgPassUnsafe) > 0:
+			change(next, rapid.SampledFrom(c.CfgPassUnsafe).Draw(t, "unsafename"))
+		}
+		nch := rapid.IntRange(0, 2).Draw(t, "nchanges")
+		if kind == "noise" {
+			nch++
+		}
 		for j := 0; j < nch; j++ {
-			n := rapid.SampledFrom(names).Draw(t, "chname")
+			pool := names
+			if kind != "hashed" && kind != "noise" {
+				pool = callerNames
+			}
+			n := rapid.SampledFrom(pool).Draw(t, "chname")
+			if kind != "hashed" && contains(hashed, n) {
+				continue // keep non-hashed steps free of hashed changes so that they assert "no rebuild"
+			}
 			if _, set := next[n]; set && !alwaysSet[n] && rapid.IntRange(0, 3).Draw(t, "unset") == 0 {
 				delete(next, n)
 			} else {
